@@ -1,4 +1,6 @@
 import HexProofs.Numeric.Simple
+import HexProofs.Numeric.TotalInputs
+import HexProofs.Numeric.TotalInputsHex
 import HexProofs.Numeric.TotalMoreAmorph
 import HexProofs.Numeric.TotalMoreHA
 import HexProofs.Numeric.TotalMoreLifeTrees
@@ -1089,5 +1091,164 @@ theorem lifespan_short_retention_raises :
     lifeRun (.hma 5 "close") "HMA_5" 7 36 = .error .indexError :=
   ⟨sma_raises_after_trim.1, roc_raises_after_trim.1, bbands_raises_after_trim.1, wma_raises_after_trim.1,
    vwma_raises_after_trim.1, hma_raises_after_trim.1⟩
+
+/-! ### (a) inputs that are other indicators' readings (HexProofs/Numeric/TotalInputs.lean, TotalInputsHex.lean)
+
+`cs`: ANY candle list (it may hold any readings under other names); `LateCol cs input t0 x`: the input reading is
+`None` on the first `t0` candles and the number `x (j − t0)` from `t0` on – the shape of another indicator's column
+(`lateCol_of_noGaps`).  `EngineReturns`: `calculate()` returns; `EngineAlways … (NoGapsFlt rd w)`: … and the reading
+`rd` is `None` EXACTLY below `w` and a float on every candle from `w` on. -/
+
+theorem sma_no_gaps_inputs (p : Nat) (hp : 2 ≤ p) (nm input : String) (n t0 : Nat) (cs : List (Candle K))
+    (x : Nat → K) (hk : IsKey nm) (hne : nm ≠ input) (habs : OwnAbsent nm cs) (hin : LateCol cs input t0 x) :
+    EngineAlways (mkTop (.sma p input : Kind K) nm n) cs (NoGapsFlt (own nm) (t0 + (p - 1))) :=
+  Hex.Numeric.sma_no_gaps_inputs p hp nm input n t0 cs x hk hne habs hin
+theorem ema_no_gaps_inputs (p : Nat) (hp : 2 ≤ p) (nm input : String) (n t0 : Nat) (cs : List (Candle K))
+    (x : Nat → K) (hk : IsKey nm) (hne : nm ≠ input) (habs : OwnAbsent nm cs) (hin : LateCol cs input t0 x) :
+    EngineAlways (mkTop (.ema p input (fl 2) : Kind K) nm n) cs (NoGapsFlt (own nm) (t0 + (p - 1))) :=
+  ema2_no_gaps_inputs p hp nm input n t0 cs x hk hne habs hin
+theorem rma_no_gaps_inputs (p : Nat) (hp : 2 ≤ p) (nm input : String) (n t0 : Nat) (cs : List (Candle K))
+    (x : Nat → K) (hk : IsKey nm) (hne : nm ≠ input) (habs : OwnAbsent nm cs) (hin : LateCol cs input t0 x) :
+    EngineAlways (mkTop (.rma p input : Kind K) nm n) cs (NoGapsFlt (own nm) (t0 + (p - 1))) :=
+  Hex.Numeric.rma_no_gaps_inputs p hp nm input n t0 cs x hk hne habs hin
+theorem wma_no_gaps_inputs (p : Nat) (hp : 2 ≤ p) (nm input : String) (n t0 : Nat) (cs : List (Candle K))
+    (x : Nat → K) (hk : IsKey nm) (hne : nm ≠ input) (habs : OwnAbsent nm cs) (hin : LateCol cs input t0 x) :
+    EngineAlways (mkTop (.wma p input : Kind K) nm n) cs (NoGapsFlt (own nm) (t0 + (p - 1))) :=
+  Hex.Numeric.wma_no_gaps_inputs p hp nm input n t0 cs x hk hne habs hin
+/-- ROC: the numeric inputs must never be `0` – otherwise FALSE (`roc_raises_on_zero`) -/
+theorem roc_no_gaps_inputs (p : Nat) (hp : 1 ≤ p) (nm input : String) (n t0 : Nat) (cs : List (Candle K))
+    (x : Nat → K) (hk : IsKey nm) (hne : nm ≠ input) (habs : OwnAbsent nm cs) (hin : LateCol cs input t0 x)
+    (hnz : ∀ k, t0 + k < cs.length → x k ≠ 0) :
+    EngineAlways (mkTop (.roc p input : Kind K) nm n) cs (NoGapsFlt (own nm) (t0 + p)) :=
+  Hex.Numeric.roc_no_gaps_inputs p hp nm input n t0 cs x hk hne habs hin hnz
+theorem vwma_no_gaps_inputs (p : Nat) (hp : 2 ≤ p) (nm : String) (n : Nat) (cs : List (Candle K))
+    (hk : IsKey nm) (habs : OwnAbsent nm cs) :
+    EngineAlways (mkTop (.vwma p : Kind K) nm n) cs (NoGapsFlt (own nm) (p - 1)) :=
+  Hex.Numeric.vwma_no_gaps_inputs p hp nm n cs hk habs
+theorem stdev_no_gaps_inputs [NonnegSqrt K] (p : Nat) (hp : 1 ≤ p) (nm input : String) (n t0 : Nat)
+    (cs : List (Candle K)) (x : Nat → K) (hn : SdNames nm) (hik : IsKey input) (h1 : input ≠ nm)
+    (h2 : input ≠ nm ++ "_data")
+    (habs : ∀ c ∈ cs, dlookup nm c.inds = none ∧ dlookup nm c.subs = none ∧
+      dlookup (nm ++ "_data") c.inds = none ∧ dlookup (nm ++ "_data") c.subs = none)
+    (hin : LateCol cs input t0 x) :
+    EngineAlways (mkTop (.stdev (p : Int) input : Kind K) nm n) cs (NoGapsFlt (own nm) (t0 + p)) :=
+  Hex.Numeric.stdev_no_gaps_inputs p hp nm input n t0 cs x hn hik h1 h2 habs hin
+theorem bbands_no_gaps_inputs [NonnegSqrt K] (p : Nat) (hp : 2 ≤ p) (nm input : String) (n t0 : Nat)
+    (cs : List (Candle K)) (x : Nat → K) (hk : IsKey nm) (hn : BbNames nm) (hi : BbInput nm input)
+    (habs : ∀ c ∈ cs, BbAbsent nm c) (hin : LateCol cs input t0 x) :
+    EngineAlways (mkTop (.bbands (p : Int) input : Kind K) nm n) cs (NoGaps3 nm "BBL" "BBM" "BBU" (t0 + p)) :=
+  Hex.Numeric.bbands_no_gaps_inputs p hp nm input n t0 cs x hk hn hi habs hin
+theorem stdevthres_no_gaps_inputs (p : Nat) (hp : 1 ≤ p) (nm input : String) (mult : Num K) (n t0 : Nat)
+    (cs : List (Candle K)) (x : Nat → K) (hk : IsKey nm) (hn : ThresNames nm) (hi : ThInput nm input)
+    (habs : ∀ c ∈ cs, ThAbsent nm c) (hin : LateCol cs input t0 x) :
+    EngineAlways (mkTop (.stdevthres (p : Int) input mult : Kind K) nm n) cs (BoolAlways nm (t0 + p)) :=
+  Hex.Numeric.stdevthres_no_gaps_inputs p hp nm input mult n t0 cs x hk hn hi habs hin
+theorem rsi_no_gaps_inputs (p : Nat) (hp : 1 ≤ p) (nm input : String) (n t0 : Nat) (cs : List (Candle K))
+    (x : Nat → K) (hk : IsKey nm) (hn : RsiNames nm) (hid : NoDot input) (h1 : input ≠ nm)
+    (h2 : input ≠ nm ++ "_data")
+    (habs : ∀ c ∈ cs, dlookup nm c.inds = none ∧ dlookup nm c.subs = none ∧
+      dlookup (nm ++ "_data") c.inds = none ∧ dlookup (nm ++ "_data") c.subs = none)
+    (hin : LateCol cs input t0 x) :
+    EngineAlways (mkTop (.rsi (p : Int) input : Kind K) nm n) cs (NoGapsFlt (own nm) (t0 + p)) :=
+  Hex.Numeric.rsi_no_gaps_inputs p hp nm input n t0 cs x hk hn hid h1 h2 habs hin
+theorem hma_no_gaps_inputs (p : Nat) (hp : 2 ≤ p) (nm input : String) (n t0 : Nat) (cs : List (Candle K))
+    (x : Nat → K) (hn : HmaNames nm) (hi : hmaI_Input nm input) (habs : ∀ c ∈ cs, hmaI_Absent nm c)
+    (hin : LateCol cs input t0 x) :
+    EngineAlways (mkTop (.hma (p : Int) input : Kind K) nm n) cs (NoGapsFlt (own nm) (t0 + (p + Nat.sqrt p - 2))) :=
+  Hex.Numeric.hma_no_gaps_inputs p hp nm input n t0 cs x hn hi habs hin
+theorem macd_no_gaps_inputs (pf ps pg : Nat) (hf : 2 ≤ pf) (hfs : pf ≤ ps) (hg : 1 ≤ pg) (nm input : String)
+    (n t0 : Nat) (cs : List (Candle K)) (x : Nat → K) (hn : MacdNames nm) (hi : macdI_Input nm input)
+    (habs : ∀ c ∈ cs, macdI_Absent nm c) (hin : LateCol cs input t0 x) :
+    EngineAlways (mkTop (.macd (pf : Int) (ps : Int) (pg : Int) input : Kind K) nm n) cs
+      (NoGapsW3 nm "MACD" "signal" "histogram" (t0 + (ps - 1)) (t0 + (ps + pg - 2)) (t0 + (ps + pg - 2))) :=
+  Hex.Numeric.macd_no_gaps_inputs pf ps pg hf hfs hg nm input n t0 cs x hn hi habs hin
+theorem stoch_no_gaps_inputs (p sk sl : Nat) (hp : 2 ≤ p) (hsk : 1 ≤ sk) (hsl : 1 ≤ sl) (nm input : String)
+    (n t0 : Nat) (cs : List (Candle K)) (x : Nat → K) (hn : StochNames nm) (hi : StochIInput nm input)
+    (habs : ∀ c ∈ cs, StochIAbsent nm c) (hin : LateCol cs input t0 x) :
+    EngineAlways (mkTop (.stoch (p : Int) (sl : Int) (sk : Int) input : Kind K) nm n) cs
+      (NoGapsW3 nm "stoch" "k" "d" (t0 + p - 1) (t0 + p + sk - 2) (t0 + p + sk + sl - 3)) :=
+  Hex.Numeric.stoch_no_gaps_inputs p sk sl hp hsk hsl nm input n t0 cs x hn hi habs hin
+theorem tsi_no_gaps_inputs (p s : Nat) (hp : 1 ≤ p) (hs : 1 ≤ s) (nm input : String) (n t0 : Nat)
+    (cs : List (Candle K)) (x : Nat → K) (hn : TsiNames nm) (hi : TsiIInput nm input)
+    (habs : ∀ c ∈ cs, TsiIAbsent nm c) (hin : LateCol cs input t0 x) :
+    EngineAlways (mkTop (.tsi (p : Int) (s : Int) input : Kind K) nm n) cs (NoGapsFlt (own nm) (t0 + (p + s - 1))) :=
+  Hex.Numeric.tsi_no_gaps_inputs p s hp hs nm input n t0 cs x hn hi habs hin
+theorem kc_no_gaps_inputs (p : Nat) (hp : 2 ≤ p) (nm input : String) (mult : Num K) (n t0 : Nat)
+    (cs : List (Candle K)) (x : Nat → K) (hk : IsKey nm) (hn : KcNames nm) (hi : kcI_Input nm input)
+    (habs : ∀ c ∈ cs, kcI_Absent nm c) (hin : LateCol cs input t0 x) :
+    EngineAlways (mkTop (.kc (p : Int) input mult : Kind K) nm n) cs
+      (NoGaps3 nm "lower" "band" "upper" (max (t0 + p - 1) p)) :=
+  Hex.Numeric.kc_no_gaps_inputs p hp nm input mult n t0 cs x hk hn hi habs hin
+theorem supertrend_no_gaps_inputs (p : Nat) (hp : 1 ≤ p) (nm input : String) (mult : Num K) (n : Nat)
+    (cs : List (Candle K)) (hk : IsKey nm) (hn : StNames nm) (habs : ∀ c ∈ cs, stI_Absent nm c) :
+    EngineAlways (mkTop (.supertrend (p : Int) input mult : Kind K) nm n) cs (StNoGaps nm p) :=
+  Hex.Numeric.supertrend_no_gaps_inputs p hp nm input mult n cs hk hn habs
+theorem adx_no_gaps_inputs (p sg : Nat) (hp : 1 ≤ p) (hg : 1 ≤ sg) (nm : String) (n : Nat) (cs : List (Candle K))
+    (hn : AdxNames nm)
+    (habs : ∀ c ∈ cs, ∀ k ∈ adxI_names nm, dlookup k c.inds = none ∧ dlookup k c.subs = none) :
+    EngineAlways (mkTop (.adx (p : Int) (sg : Int) : Kind K) nm n) cs
+      (NoGapsW3 nm "ADX" "DM_Plus" "DM_Neg" (p + sg - 1) p p) :=
+  Hex.Numeric.adx_no_gaps_inputs p sg hp hg nm n cs hn habs
+
+/-- **never raises** – every `X_no_gaps_inputs` above contains it (`EngineAlways.returns`); e.g. -/
+theorem rsi_never_raises_inputs (p : Nat) (hp : 1 ≤ p) (nm input : String) (n t0 : Nat) (cs : List (Candle K))
+    (x : Nat → K) (hk : IsKey nm) (hn : RsiNames nm) (hid : NoDot input) (h1 : input ≠ nm)
+    (h2 : input ≠ nm ++ "_data")
+    (habs : ∀ c ∈ cs, dlookup nm c.inds = none ∧ dlookup nm c.subs = none ∧
+      dlookup (nm ++ "_data") c.inds = none ∧ dlookup (nm ++ "_data") c.subs = none)
+    (hin : LateCol cs input t0 x) : EngineReturns (mkTop (.rsi (p : Int) input : Kind K) nm n) cs :=
+  (rsi_no_gaps_inputs p hp nm input n t0 cs x hk hn hid h1 h2 habs hin).returns
+
+/-- a source's no-gaps column IS a late-starting input column -/
+theorem source_column_is_late {raw out : List (Candle K)} {nm : String} {w : Nat} (h : NoGapsFlt (own nm) w raw out) :
+    LateCol out nm w (fun k => (inputSeriesAt out nm (w + k)).getD 0) := lateCol_of_noGaps h
+
+/-- **chained indicators inside a `Hexital` never raise and have no gaps** – the generic glue (any covered source with
+a scalar reading, any covered dependent over it, any manager with an incremental spec) … -/
+theorem chained_pair_no_gaps {nameA : String} {kA : Kind K} (hA : Chain.SrcVia nameA kA) (roundA : Nat)
+    {nameB : String} {kB : Kind K} (hB : Chain.DepVia nameA nameB kB) (roundB : Nat)
+    (hkA : IsKey nameA) (hmain : nameA ∈ (mkTop kA nameA roundA).allNames)
+    (hdis : ∀ x ∈ (mkTop kA nameA roundA).allNames, x ∉ (mkTop kB nameB roundB).allNames)
+    (TA : TreeSpec (mkTop kA nameA roundA)) (wA : Nat)
+    (hsrc : ∀ raw : List (Candle K), (∀ c ∈ raw, Plain c) →
+      ∃ out, Gen.rowMajor TA.S raw = .ok out ∧ NoGapsFlt (own nameA) wA raw out)
+    (PB : List (Candle K) → Prop)
+    (hdep : ∀ mid : List (Candle K),
+      (∀ c ∈ mid, ∀ k ∈ (mkTop kB nameB roundB).allNames, dlookup k c.inds = none ∧ dlookup k c.subs = none) →
+      ∀ x, LateCol mid nameA wA x →
+      ∃ out, engineCalc (mkTop kB nameB roundB) mid = .ok out ∧ out.length = mid.length ∧ PB out)
+    (M : MgrSpec K) (tfn : Option String) (init : List (Candle K)) (chunks : List (List (Candle K)))
+    (hok : M.Ok (init ++ chunks.flatten)) :
+    ∃ (H : Hexital K) (cs : List (Candle K)),
+      Chain.pairRun (mkTop kA nameA roundA) (mkTop kB nameB roundB) M.cfg tfn init chunks = .ok H ∧
+      H.managers = [(defaultKey, { cfg := M.cfg, candles := cs })] ∧
+      NoGapsFlt (own nameA) wA (M.spec (init ++ chunks.flatten)) cs ∧ PB cs :=
+  pair_no_gaps hA roundA hB roundB hkA hmain hdis TA wA hsrc PB hdep M tfn init chunks hok
+
+/-- … RSI over EMA … -/
+theorem rsi_over_ema_hexital (M : MgrSpec K) (pA pB : Nat) (hpA : 2 ≤ pA) (hpB : 1 ≤ pB) (nmA nmB : String)
+    (nA nB : Nat) (hkA : IsKey nmA) (hkB : IsKey nmB) (hnB : RsiNames nmB) (h1 : nmA ≠ nmB)
+    (h2 : nmA ≠ nmB ++ "_data") (tfn : Option String) (init : List (Candle K)) (chunks : List (List (Candle K)))
+    (hok : M.Ok (init ++ chunks.flatten)) :
+    ∃ (H : Hexital K) (cs : List (Candle K)),
+      Chain.pairRun (mkTop (.ema (pA : Int) "close" (fl 2) : Kind K) nmA nA)
+        (mkTop (.rsi (pB : Int) nmA : Kind K) nmB nB) M.cfg tfn init chunks = .ok H ∧
+      H.managers = [(defaultKey, { cfg := M.cfg, candles := cs })] ∧
+      NoGapsFlt (own nmA) (pA - 1) (M.spec (init ++ chunks.flatten)) cs ∧
+      NoGapsFlt (own nmB) (pA - 1 + pB) (M.spec (init ++ chunks.flatten)) cs :=
+  Hex.Numeric.rsi_over_ema_hexital M pA pB hpA hpB nmA nmB nA nB hkA hkB hnB h1 h2 tfn init chunks hok
+
+/-- … and SMA over RSI -/
+theorem sma_over_rsi_hexital (M : MgrSpec K) (pA pB : Nat) (hpA : 1 ≤ pA) (hpB : 2 ≤ pB) (nmA nmB : String)
+    (nA nB : Nat) (hkA : IsKey nmA) (hnA : RsiNames nmA) (hkB : IsKey nmB) (h1 : nmA ≠ nmB)
+    (h2 : nmA ++ "_data" ≠ nmB) (tfn : Option String) (init : List (Candle K)) (chunks : List (List (Candle K)))
+    (hok : M.Ok (init ++ chunks.flatten)) :
+    ∃ (H : Hexital K) (cs : List (Candle K)),
+      Chain.pairRun (mkTop (.rsi (pA : Int) "close" : Kind K) nmA nA) (mkTop (.sma (pB : Int) nmA : Kind K) nmB nB)
+        M.cfg tfn init chunks = .ok H ∧
+      H.managers = [(defaultKey, { cfg := M.cfg, candles := cs })] ∧
+      NoGapsFlt (own nmA) pA (M.spec (init ++ chunks.flatten)) cs ∧
+      NoGapsFlt (own nmB) (pA + (pB - 1)) (M.spec (init ++ chunks.flatten)) cs :=
+  Hex.Numeric.sma_over_rsi_hexital M pA pB hpA hpB nmA nmB nA nB hkA hnA hkB h1 h2 tfn init chunks hok
 
 end Hex.C09
